@@ -1,0 +1,5 @@
+//go:build !verif
+
+package lang
+
+func verifCharge(n int) {}
